@@ -146,10 +146,22 @@ class Facts:
         v = self.fns.get(name)
         if not v:
             return None
-        return v[0]
+        return self._sugar(v[0])
+
+    def _sugar(self, r):
+        if not r.get("_sugared"):
+            import hir
+            r["body"] = hir.resugar(r["body"])
+            r["_sugared"] = True
+        return r
 
     def fns_where(self, pred):
-        return [r for v in self.fns.values() for r in v if pred(r)]
+        return [self._sugar(r) for v in self.fns.values() for r in v if pred(r)]
+
+    def all_fns(self):
+        for v in self.fns.values():
+            for r in v:
+                yield self._sugar(r)
 
 
 _loaded = {}
